@@ -400,6 +400,23 @@ def _fam_qp_inf_region(rng, n, spec):
     return f, g, dict(convex=False, wild=True, inf_region=dict(a=a, state=st, margin=float(np.exp(rng.uniform(np.log(0.05), np.log(2.0)))), A=A, b=b))
 
 
+def _fam_sqrt_floor(rng, n, spec):
+    """sum(w_i*sqrt(x_i)) + 0.5*|x - a|^2 on x >= 0 (make_problem puts the lower bounds at 0): the minimiser of the variables with
+    a_i <= 0 is the bound itself, where the gradient is +inf. Not in ALL_FAMILIES."""
+    w = rng.uniform(0.2, 3.0, n)
+    a = rng.uniform(-1.0, 2.0, n)
+
+    def f(x):
+        with np.errstate(invalid="ignore"):
+            return float(np.sum(w * np.sqrt(x)) + 0.5 * np.sum((x - a) ** 2))
+
+    def g(x):
+        with np.errstate(divide="ignore", invalid="ignore"):
+            return w / (2.0 * np.sqrt(x)) + (x - a)
+
+    return f, g, dict(convex=False, wild=True, floor_zero=True)
+
+
 def _fam_badly_scaled(rng, n, spec):
     A = rand_spd(rng, n, float(spec.get("cond", 30.0)))
     b = rng.standard_normal(n)
@@ -468,6 +485,7 @@ _FAMILIES = {
     "log_barrier": _fam_log_barrier,
     "qp_inf_region": _fam_qp_inf_region,
     "qp_nan_region": _fam_qp_inf_region,
+    "sqrt_floor": _fam_sqrt_floor,
     "badly_scaled": _fam_badly_scaled,
     "quartic": _fam_quartic,
     "sphere": _fam_sphere,
@@ -538,6 +556,10 @@ def make_problem(spec) -> Problem:
         g0 = ir["A"] @ x0 - ir["b"]
         ir["a"][:] = -g0 / max(float(np.linalg.norm(g0)), 1e-300)
         ir["state"]["thr"] = float(ir["a"] @ x0) + ir["margin"]
+    if meta.get("floor_zero"):
+        lb = np.zeros(n)
+        ub = np.where(np.isfinite(ub) & (ub > 0.5), ub, np.inf)
+        x0 = np.clip(np.abs(x0) * 0.3 + 0.05, lb, ub)
     if meta.get("domain_positive"):
         x0 = np.clip(np.abs(x0) + 0.3, lb, ub)  # start inside the objective's domain whenever the box allows it
     return Problem(dict(spec), n, f, g, lb, ub, x0, meta)
